@@ -1,4 +1,6 @@
 """C04 - malformed blocks never damage neighbours: parsing resyncs at the next @block."""
+import re
+
 import bibtexparser
 from bibtexparser.model import ParsingFailedBlock
 from bibtexparser.splitter import Splitter
@@ -16,7 +18,7 @@ PAIRS = [
     ("@string{z1 = \"v\"}", "@comment{c2}\ntext after\n@b{d2}"),
     ("@preamble{p1}", "@preamble{p2 {x}}\n"),
     ("@comment{c1}", "@b{d2,\n u = {multi\nline},\n}\n% tail"),
-    ("free text\n@a{d1}", "@b{d2, u = 1, v = {two}}"),
+    ("free text\n@a{d1}", "@b{d2, u = {1}, v = {two}}"),
     ("@a{d1,\n t = {x},\n}", "@B{d2, u = \"q {\"} r\"}\nfree"),
     ("@a{d1}@a{d1b}", "@comment{c2 {n}}@b{d2}"),
     ("@a{d1, x = {1}, x = {2}}", "@b{d2, y = {1}, y = {2}}"),
@@ -24,6 +26,9 @@ PAIRS = [
     ("% only text\n@a{d1, t = {\\\\\n}}", "@string{z2 = \"a\" # \"b\"}"),
     ("", "@b{d2, u = {w}}"),
 ]
+
+
+PAIR_KEYS = re.compile(r"d1|d2|z1|z2|c1|c2")
 
 
 def _parse(text, mode):
@@ -80,6 +85,8 @@ def o_triple(inp):
     """inp: {"pair": index, "x": text}"""
     d1, d2 = PAIRS[inp["pair"] % len(PAIRS)]
     x = inp["x"]
+    if PAIR_KEYS.search(x):
+        return (None, False, ("keys-not-disjoint",))  # the property's triples have disjoint keys
     lib = Splitter(x).split()
     needs_resync = any(isinstance(b, ParsingFailedBlock) for b in lib.blocks) or x.count("{") != x.count("}") or x.count('"') % 2 == 1
     cls = ["resync-needed"] if needs_resync else []
